@@ -128,6 +128,10 @@ JTOK_WITNESSES = [
 
 def corpus():
     out = []
+    # a bundle whose JSON text exceeds 16 MiB (5 MB payload): to_json has no size limit, so the way back must not have one either
+    big = _fixed(0, ("N",), 0, 0)
+    next(c for c in big["cs"] if c["type"] == 1)["data"] = ("DATA", bytes((i * 11 + 5) % 256 for i in range(5 * 1000 * 1000)))
+    out.append("JSONX" + _line(big)[4:])
     for frag in (0, 1):
         for crc in (("N",), ("E16",), ("E32",), ("V16", b"\x00\x00"), ("V32", b"\xff\xff\xff\xff")):
             out.append(_line(_fixed(frag, crc, 10 * frag, 20 * frag)))
@@ -225,6 +229,8 @@ def cases(rng, tier):
 # ------------------------------------------------------------------ oracle (on the implementation's output) --------
 
 def oracle(line, out, mode):
+    if line.startswith("JSONX "):
+        line = "JSON " + line[6:]
     if not line.startswith("JSON "):
         return None                      # JTOK / JSONDEC lines are correspondence / observation only
     if not out.startswith("OK "):
@@ -271,7 +277,7 @@ def canon(out):
 
 
 def same(line, io, mo):
-    return line.startswith("JSONDEC ")   # no JSON text parser in the model
+    return line.startswith(("JSONDEC ", "JSONX "))   # no JSON text parser in the model; megabyte-sized bundles are implementation + oracle only
 
 
 def _is_fragment_line(line):
